@@ -54,7 +54,7 @@ HOSTILE = [
     'csi\x9b' + MARK + '\x9b31m',
     'ff\x0c' + MARK + '\x0bvt\x1c\x1d\x1e',
 ]
-GENS = ['corpus', 'corpus', 'corpus-attr', 'corpus-splice', 'valid-unusual', 'bgpls-names', 'bgpls-names', 'srpolicy-names', 'unknown-attr', 'operational', 'refresh', 'notification']
+GENS = ['corpus', 'corpus', 'corpus-attr', 'corpus-splice', 'valid-unusual', 'bgpls-names', 'bgpls-names', 'srpolicy-names', 'unknown-attr', 'operational', 'refresh', 'notification', 'ref-update', 'ref-update', 'ref-update']
 ENVELOPE = {'exabgp', 'time', 'host', 'pid', 'ppid', 'counter', 'type'}
 
 
@@ -101,6 +101,19 @@ def build(item: dict, kind: dict) -> tuple[int, bytes, int]:
     if g in ('corpus', 'corpus-attr', 'corpus-splice', 'valid-unusual'):
         t, body, _ = c03.build({'gen': g, 'seed': item['seed'], 'size': item['size']}, kind)
         return t, body, 0
+    if g == 'ref-update':
+        # a well-formed UPDATE from the structured generator of C02: any mix of withdrawn / NLRI / MP_REACH / MP_UNREACH (several
+        # families in one message, shared next hops), every attribute subset incl. the RFC 6793 OLD-speaker leftovers, any order
+        from scenarios import c02
+
+        fams = [list(f) for f in kind['families'] if tuple(f) in c02.FAMS]
+        if fams:
+            k2 = dict(kind, families=fams, addpath=[list(f) for f in kind.get('addpath', []) if list(f) in fams], nexthop_ext=[])
+            for _ in range(4):
+                msg = c02.enc_update(c02.gen_update(rng, k2), k2)
+                if msg is not None:
+                    return 2, msg[19:], 0
+        g = 'unknown-attr'
     if g == 'bgpls-names':
         tl = []
         for _ in range(rng.randint(1, 3)):
